@@ -132,6 +132,15 @@ Theorem C14_first_error_where_the_sentence_breaks : forall w, Forall (fun k => k
 Proof. exact stub_first_error_exact. Qed.
 Print Assumptions C14_first_error_where_the_sentence_breaks.
 
+(* ... and the default, error-collecting mode lists that error first (C14_stop_first, generic) *)
+Theorem C14_first_listed_error_where_the_sentence_breaks : forall w es c, Forall (fun k => k <> KEOF) w ->
+  Stub.run false w = RaiseC es c ->
+  exists err l i, es = err :: l /\ fst err = nth i (stub_all w) (KEOF, 0)
+              /\ (forall u, runR G (firstn (S i) (w ++ [KEOF]) ++ u) = false)
+              /\ (exists u, runR G (firstn i w ++ u) = true).
+Proof. exact stub_first_error_collecting. Qed.
+Print Assumptions C14_first_listed_error_where_the_sentence_breaks.
+
 (* the position itself, as a function of the kinds: neither early nor late *)
 Theorem C14_first_stuck : forall w i, first_stuck w = Some i ->
   (forall u, runR G (firstn (S i) (w ++ [KEOF]) ++ u) = false) /\ (exists u, runR G (firstn i w ++ u) = true).
